@@ -11,6 +11,10 @@ type containerMetaList struct {
 	main       metaIterator
 	choiceCase *containerMetaList
 	s          *Selection
+
+	// err is set when the node could not tell which case of a choice is chosen; the
+	// iteration ends there
+	err error
 }
 
 type metaIterator interface {
@@ -70,6 +74,12 @@ func (self *containerMetaList) lookAhead() {
 		if self.choiceCase != nil {
 			m = self.choiceCase.nextMeta()
 			if m == nil {
+				if self.choiceCase.err != nil {
+					self.err = self.choiceCase.err
+					self.choiceCase = nil
+					self.main = nil
+					return
+				}
 				self.choiceCase = nil
 				continue
 			}
@@ -83,7 +93,10 @@ func (self *containerMetaList) lookAhead() {
 		}
 		if choice, isChoice := m.(*meta.Choice); isChoice {
 			if chosen, err := self.s.Node.Choose(self.s, choice); err != nil {
-				panic(fmt.Sprintf("%T - %s", self.s.Node, err))
+				self.err = fmt.Errorf("%T - %w", self.s.Node, err)
+				self.main = nil
+				self.choiceCase = nil
+				return
 			} else if chosen != nil {
 				self.choiceCase = newChoiceCaseIterator(self.s, chosen)
 				continue
